@@ -15,3 +15,18 @@ print("%-8s %-11s %s" % ("id", "first pass", "now"))
 for r in rows:
     print("%-8s %-11d %s" % r)
 print("%d refactorings; %d silent; alarming (refactoring, check) pairs: first pass %d, now %d of %d" % (len(rows), len([r for r in rows if r[2] == "silent"]), first, tot, 20 * len(rows)))
+
+# README for the directory
+lines = ["# Behaviour-preserving changes written by independent sub-agents", "",
+         "Each directory holds `patch.diff` (against the /repo commit named in DESIGN.md), the agent's `notes.md` (what was changed and why behaviour is",
+         "unchanged) and `meta.json` (`alarms_first_pass`: the checks that alarmed when the change was first run, `alarms_now`: at the last full re-run).",
+         "`R<k>`: large refactorings (round 4), `S<k>` / `T<k>`: small routine edits (rounds 5 and 6).  Every check must stay silent on them;",
+         "`EXPECT_SILENT.txt` lists the ones on which all 20 checks are silent today - they are re-run by `./check selftest`.", "",
+         "Re-run: `tools/refactor_verify.py --recheck <id>|all [checks...]`; table: `tools/refactor_report.py`.", "",
+         "| id | alarming checks, first pass | alarming checks, now |", "|---|---|---|"]
+for f in sorted(glob.glob(os.path.join(VERIF, "refactors", "*", "meta.json"))):
+    m = json.load(open(f))
+    now = m.get("alarms_now", m.get("alarms_first_pass", {}))
+    fp = m.get("alarms_first_pass", {})
+    lines.append("| %s | %s | %s |" % (m["id"], " ".join(sorted(fp)) or "-", " ".join(sorted(now)) or "silent"))
+open(os.path.join(VERIF, "refactors", "README.md"), "w").write("\n".join(lines) + "\n")
